@@ -116,6 +116,12 @@ def mutations(rng, ev):
         else:
             m[k] = {"x%d" % rng.randint(0, 9): {"y": "z%d" % rng.randint(0, 999)}}
         out.append((m, "uncovered"))
+    # unsigned keys that carry meaning elsewhere (redaction marker, previous content, ...): still not hashed
+    m = copy.deepcopy(ev)
+    m["unsigned"] = dict(m.get("unsigned") if isinstance(m.get("unsigned"), dict) else {},
+                         **{rng.choice(["redacted_because", "prev_content", "transaction_id", "m.relations", "age"]):
+                            rng.choice([{"type": "m.room.redaction", "content": {}, "event_id": "$r", "sender": "@a:b"}, {}, "x", None, 1])})
+    out.append((m, "uncovered"))
     m = copy.deepcopy(ev)
     m["hashes"] = {"sha256": "AAAA%d" % rng.randint(0, 999)}
     out.append((m, "hashes"))
